@@ -28,6 +28,25 @@ fn resf<F: VF, E: fmt::Display>(r: Result<(F, bool), E>) -> Out {
         Err(e) => Out::E(e.to_string()),
     }
 }
+/// a SCALE input that cannot say how many bytes remain (like `codec::IoReader` over a stream)
+struct Stream<'a> {
+    data: &'a [u8],
+    pos: usize,
+}
+impl<'a> codec::Input for Stream<'a> {
+    fn remaining_len(&mut self) -> Result<Option<usize>, codec::Error> {
+        Ok(None)
+    }
+    fn read(&mut self, into: &mut [u8]) -> Result<(), codec::Error> {
+        if into.len() > self.data.len() - self.pos {
+            return Err("end of stream".into());
+        }
+        into.copy_from_slice(&self.data[self.pos..self.pos + into.len()]);
+        self.pos += into.len();
+        Ok(())
+    }
+}
+
 fn sres(r: Result<String, fmt::Error>) -> Out {
     match r {
         Ok(s) => Out::S(s),
@@ -147,6 +166,34 @@ where
                 match serde_json::from_str::<F>(&t) {
                     Ok(v) => Out::O(Some(v.raw())),
                     Err(_) => Out::O(None),
+                }
+            });
+            step!(st, outs, 23, "decode_stream", {
+                let mut inp = Stream { data: &input, pos: 0 };
+                match F::decode(&mut inp) {
+                    Ok(v) => Out::F(v.raw(), inp.pos == n),
+                    Err(_) => Out::O(None),
+                }
+            });
+            step!(st, outs, 24, "decode_stream(encode)", {
+                let e = x.encode();
+                Out::O(F::decode(&mut Stream { data: &e, pos: 0 }).ok().map(|v| v.raw()))
+            });
+            // inside composite values: a record and a sequence
+            step!(st, outs, 25, "encode_record", Out::Y((7u8, x, 0xBEEFu16).encode()));
+            step!(st, outs, 26, "decode_record", {
+                let e = (7u8, x, 0xBEEFu16).encode();
+                match <(u8, F, u16)>::decode(&mut Stream { data: &e, pos: 0 }) {
+                    Ok((7, v, 0xBEEF)) => Out::O(Some(v.raw())),
+                    _ => Out::O(None),
+                }
+            });
+            step!(st, outs, 27, "encode_vec", Out::Y(vec![x, x].encode()));
+            step!(st, outs, 28, "decode_vec", {
+                let e = vec![x, x].encode();
+                match <Vec<F>>::decode(&mut &e[..]) {
+                    Ok(v) if v.len() == 2 && v[0].raw() == v[1].raw() => Out::O(Some(v[0].raw())),
+                    _ => Out::O(None),
                 }
             });
         }
